@@ -528,7 +528,7 @@ func drawPlan(rnd *vkit.Rand) tickerPlan {
 // coincides with the action on every case.
 
 func gateCases(r *vkit.Report) {
-	n := r.Scale(400, 2000)
+	n := r.Scale(400, 1600)
 	r.Cases("gate", n, 1, func(c *vkit.Case) {
 		rnd := c.Rand
 		p := tickerPlan{}
@@ -569,7 +569,7 @@ func gateCases(r *vkit.Report) {
 // 100-800 us at ticker.fire.
 
 func stressCases(r *vkit.Report) {
-	n := r.Scale(150, 800)
+	n := r.Scale(150, 600)
 	const lives = 64
 	r.Cases("stress", n, 1, func(c *vkit.Case) {
 		rnd := c.Rand
